@@ -561,6 +561,27 @@ func regexKindC07(c *Ctx, tt *tokenTable) {
 				case peek:
 					return []cval{cConst(constant.MakeInt64('$'))}, true
 				}
+				// the look-ahead may sit in a helper method: evaluate it under the
+				// same bindings
+				if cal := call.Call.StaticCallee(); cal != nil && cal != f && cal.Pkg == p.SPkg && len(cal.Blocks) > 0 && callsDirectly(cal, peek) {
+					rets := s2.Eval(cal, nil)
+					if len(rets) > 0 {
+						res := make([]cval, len(rets[0].Results))
+						for _, rp := range rets {
+							for i := range res {
+								if i < len(rp.Results) {
+									res[i] = cmeet(res[i], rp.Results[i])
+								}
+							}
+						}
+						for i := range res {
+							if res[i].k == 0 {
+								res[i] = cTop
+							}
+						}
+						return res, true
+					}
+				}
 				return nil, false
 			}
 			for _, rp := range s2.Eval(f, nil) {
@@ -594,4 +615,15 @@ func regexKindC07(c *Ctx, tt *tokenTable) {
 	} else {
 		c.Bad("C07.regexkind", "parseRegex: other tokens", f.Pos(), "a RegexLiteral is also built for "+joinShort(wrong)+": a parameter bound to such a value is compiled as a regular expression where the grammar probes for a regex (call arguments, FROM, WITH KEY)")
 	}
+}
+
+func callsDirectly(f, callee *ssa.Function) bool {
+	for _, b := range f.Blocks {
+		for _, in := range b.Instrs {
+			if call, ok := in.(*ssa.Call); ok && call.Call.StaticCallee() == callee {
+				return true
+			}
+		}
+	}
+	return false
 }
